@@ -20,6 +20,25 @@ let vp_of (s : Sx.t) : Cmd.vparser = match s with
   | Sx.Sym "bool" -> Cmd.VPBool
   | Sx.Sym "count" -> Cmd.VPCount
   | Sx.L [Sx.Sym "i64"; lo; hi] -> Cmd.VPI64 (z_of_z (Sx.num lo), z_of_z (Sx.num hi))
+  | Sx.Sym "boolish" -> Cmd.VPBoolish
+  | Sx.Sym "falsey" -> Cmd.VPFalsey
+  | Sx.Sym "nonempty" -> Cmd.VPNonEmpty
+  (* (pv (name alias..) (hide name alias..) ..): the [ignore_case] the parser works with is the
+     argument's flag, filled in at the end of [build_arg]; [false] for an external-subcommand parser *)
+  | Sx.L (Sx.Sym "pv" :: pvs) ->
+    let one (x : Sx.t) = match x with
+      | Sx.L (Sx.Sym "hide" :: n :: al) ->
+        ({ PossibleValues.pv_name = bs n; PossibleValues.pv_aliases = Stdlib.List.map bs al }, true)
+      | Sx.L (n :: al) ->
+        ({ PossibleValues.pv_name = bs n; PossibleValues.pv_aliases = Stdlib.List.map bs al }, false)
+      | _ -> failwith "pv" in
+    Cmd.VPPossible (false, Stdlib.List.map one pvs)
+  | Sx.L [Sx.Sym "int"; Sx.Sym t; lo; hi] ->
+    let t = match t with
+      | "u8" -> ValueBase.U8 | "i8" -> ValueBase.I8 | "u16" -> ValueBase.U16 | "i16" -> ValueBase.I16
+      | "u32" -> ValueBase.U32 | "i32" -> ValueBase.I32 | "u64" -> ValueBase.U64 | "i64" -> ValueBase.I64
+      | x -> failwith ("int type " ^ x) in
+    Cmd.VPRanged (t, z_of_z (Sx.num lo), z_of_z (Sx.num hi))
   | _ -> failwith "vp"
 
 let build_arg (items : Sx.t list) : Cmd.arg =
@@ -88,6 +107,10 @@ let build_arg (items : Sx.t list) : Cmd.arg =
     | "help" -> a := { !a with a_help = Some (bs (Stdlib.List.hd args)) }
     | x when String.length x > 2 && String.sub x 0 2 = "x-" -> ()
     | x -> failwith ("arg item " ^ x)) (Stdlib.List.tl items);
+  (* [PossibleValuesParser::parse_ref] reads [arg.is_ignore_case_set()] *)
+  (match !a.Cmd.a_vp with
+   | Some (Cmd.VPPossible (_, pvs)) -> a := { !a with Cmd.a_vp = Some (Cmd.VPPossible (!a.Cmd.a_ignore_case, pvs)) }
+   | _ -> ());
   !a
 
 let build_group (items : Sx.t list) : Cmd.group =
